@@ -71,6 +71,19 @@ func facts(f *hc.Facts) {
 	}
 	f.Bool("unackedCloseReportsCause", cause, "retryUntilAck: case <-e.reqCtx.Done(): … return Wrap(context.Cause(e.reqCtx)) (= ErrEngineClosed)")
 	f.Bool("sendErrorPlain", plain, "retryUntilAck: first send error is returned as Wrap(err, \"send\") (not a retryable sentinel)")
+	// manager.Conn.Invoke maps a transport-level send failure to pool.ErrConnDead
+	mapped := false
+	if fd := f.FuncDecl("telegram/internal/manager", "Conn.Invoke"); fd != nil && fd.Body != nil && len(fd.Body.List) >= 2 {
+		n := len(fd.Body.List)
+		if f.Src(fd.Body.List[n-2]) == "err := c.proto.Invoke(ctx, req, output)" && f.Src(fd.Body.List[n-1]) == "return connDeadOnSendError(ctx, err)" {
+			if h := f.FuncDecl("telegram/internal/manager", "connDeadOnSendError"); h != nil && h.Body != nil {
+				src := f.Src(h.Body)
+				mapped = strings.Contains(src, "ctx.Err() != nil") && strings.Contains(src, "errors.As(err, &netErr)") &&
+					strings.Contains(src, "pool.ErrConnDead, err")
+			}
+		}
+	}
+	f.Bool("sendErrorMapped", mapped, "manager.Conn.Invoke: return connDeadOnSendError(ctx, err) — net errors of the write become pool.ErrConnDead unless the caller's ctx is done")
 	ackedErr := false
 	if fd := f.FuncDecl("rpc", "Engine.Do"); fd != nil && fd.Body != nil {
 		ast.Inspect(fd.Body, func(n ast.Node) bool {
